@@ -83,6 +83,7 @@ class Registry:
         self.pure_funcs = set()
         self.loop_contracts = {}
         self.duplicates = []
+        self.facets = {}         # target -> every contract written for it (several properties may each carry one)
 
     # ---------------------------------------------------------------- policies
     def has_contract(self, fi, eng):
@@ -90,6 +91,27 @@ class Registry:
 
     def dispatch_ok(self, fi, selfv):
         return False
+
+    def add_contract(self, con):
+        """several contracts may be written for one function (one per property group): each is verified on its own; at
+        call sites all of them apply (every precondition is an obligation, every postcondition is assumed).  The primary
+        one (frame, result type) is the first verified contract, else the first assumed one."""
+        con.cid = f'{con.module}:{con.name}'
+        fs = self.facets.setdefault(con.target, [])
+        fs.append(con)
+        if len(fs) > 1:
+            self.duplicates.append((con.target, [c.cid for c in fs]))
+        prim = next((c for c in fs if not c.assumed), fs[0])
+        self.contracts[con.target] = prim
+
+    def all_contracts(self):
+        return [c for fs in self.facets.values() for c in fs]
+
+    def by_cid(self, cid):
+        return next(c for c in self.all_contracts() if c.cid == cid)
+
+    def other_facets(self, con):
+        return [c for c in self.facets.get(con.target, []) if c is not con]
 
     def contract_for_call(self, fi, eng, selfv):
         con = self.contracts.get(fi.qualname)
@@ -99,7 +121,7 @@ class Registry:
         if cur is not None:
             if fi.qualname in cur.inline:
                 return None
-            if con is cur and eng.depth == 0 and not cur.attrs.get('recursive'):
+            if cur.target == con.target and eng.depth == 0 and not cur.attrs.get('recursive'):
                 return None    # (contracts declaring `recursive = True` use their own contract at the recursive call:
                 #                partial correctness, termination is not an obligation of the engine)
         if eng.mode == SPEC and not con.pure:
@@ -182,7 +204,7 @@ class Registry:
             hn, ha = eng.dict_has(d)
             eng.heap.set(hn, z3.Store(ha, d.ref, eng.def_array(vars_, guard)))
             vn, va = eng.dict_val(d)
-            eng.heap.set(vn, z3.Store(va, d.ref, eng.def_array(vars_, eng.coerce_term(v, d.vty))))
+            eng.heap.set(vn, z3.Store(va, d.ref, eng.def_array(vars_, eng.coerce_term(eng.materialize(v, d.vty), d.vty))))
             eng._dict_order_havoc(d)
             return d
         hn, ha = eng.dict_has(d)
